@@ -10,6 +10,8 @@ pub mod c07;
 pub mod c08;
 pub mod c09;
 pub mod c10;
+pub mod c11;
+pub mod c12;
 pub mod c13;
 pub mod c14;
 pub mod c15;
@@ -17,6 +19,7 @@ pub mod c16;
 pub mod c16_grammar;
 pub mod c17;
 pub mod c18;
+pub mod c19;
 pub mod c20;
 pub mod c21;
 pub mod c22;
@@ -30,6 +33,7 @@ pub mod c29;
 pub mod c30;
 pub mod c31;
 pub mod c32;
+pub mod probe;
 pub mod c33;
 pub mod c34;
 pub mod c35;
@@ -53,12 +57,15 @@ pub const REGISTRY: &[Entry] = &[
     Entry { id: "C08", level: "fault_enumeration", run: c08::run },
     Entry { id: "C09", level: "exploration", run: c09::run },
     Entry { id: "C10", level: "exploration", run: c10::run },
+    Entry { id: "C11", level: "exploration", run: c11::run },
+    Entry { id: "C12", level: "exploration", run: c12::run },
     Entry { id: "C13", level: "exploration", run: c13::run },
     Entry { id: "C14", level: "exploration", run: c14::run },
     Entry { id: "C15", level: "exploration", run: c15::run },
     Entry { id: "C16", level: "exploration", run: c16::run },
     Entry { id: "C17", level: "fault_enumeration", run: c17::run },
     Entry { id: "C18", level: "exploration", run: c18::run },
+    Entry { id: "C19", level: "exploration", run: c19::run },
     Entry { id: "C20", level: "exploration", run: c20::run },
     Entry { id: "C21", level: "exploration", run: c21::run },
     Entry { id: "C22", level: "exploration", run: c22::run },
